@@ -59,6 +59,9 @@ def main():
             rc, out = sh('git -C /repo status --porcelain')
             if out.strip():
                 print('WARNING: /repo not clean after undo: ' + out)
+            # bring the generated tables and the compiled development back in step with the unchanged tree
+            sh('make translate', cwd='/verif')
+            sh('timeout 3000 make -k -f Makefile.coq -j12', cwd='/verif/coq')
         meta['ran'].append('git -C /repo apply; ./check <id> --tier quick for %s; git -C /repo checkout -- .' % ', '.join(props))
     meta['check_results'] = results
     meta['detected_by'] = sorted(p for p, r in results.items() if r['exit'] == 1)
